@@ -205,7 +205,7 @@ func WorkerMain(t *testing.T) {
 			sum.Samples = append(sum.Samples, r.Sample)
 		}
 		// determinism canary: re-execute and compare
-		if sc := FindScenario(prop, r.Scenario); canaryEvery > 0 && i%canaryEvery == 0 && !r.Failed() && (sc == nil || !sc.Loose) {
+		if sc := FindScenario(prop, r.Scenario); canaryEvery > 0 && i%canaryEvery == 0 && !r.Failed() && (sc == nil || !sc.Loose) && r.Notes["canary_exempt"] == "" {
 			r2 := Execute(prop, seed, no, NewReplay(tp.Rec, true))
 			sum.Canaries++
 			if r2.T.Diverged != "" || r2.T.Hash() != tp.Hash() || r2.Failed() != r.Failed() {
